@@ -8,9 +8,11 @@ import lib
 from props import fsx
 
 ID = 'C11'
-GEN_FILES = ['T_file_proto', 'T_p8_proto', 'T_png_proto']
+GEN_FILES = ['T_file_proto', 'T_p8_proto', 'T_png_proto',
+             # source pins of the hand-modelled modules (gen/kernels_pins.py)
+             'T_pins_file', 'T_pins_tool', 'T_pins_p8', 'T_pins_p8png', 'T_pins_build', 'T_pins_fmtbase']
 COQ_PROPERTY = 'theories/Properties/C11.vo'
-COQ_EXTRA = []
+COQ_EXTRA = ['theories/Proofs/FilePins.vo', 'theories/Proofs/ToolPins.vo', 'theories/Proofs/P8Pins.vo', 'theories/Proofs/P8PngPins.vo', 'theories/Proofs/BuildPins.vo', 'theories/Proofs/FmtBasePins.vo']
 MODEL = ('ExC11', 'c11_main.ml')
 MONITOR = ('MonC11', 'c11_mon_main.ml')
 CASE_TIMEOUT = 600
@@ -234,6 +236,8 @@ class _Run:
         if self.dest != self.inp:
             if fk == 'label-unreadable' and sc['fault']['how'] == 'dest-garbage':
                 fsx.write_file(t(self.dest), b'\x89PNG\r\n\x1a\n this is not a picture ' + bytes(40))
+            elif sc['dest_exists'] and sc.get('dest_empty'):
+                fsx.write_file(t(self.dest), b'')      # an existing file of length zero (mkstemp, touch) is a file too
             elif sc['dest_exists']:
                 _write_cart(t(self.dest), _mk_game(seed + 2, 'small', label=(sc['fmt'] == 'p8')))
         if fk == 'label-unreadable' and sc['fault']['how'] == 'explicit':
@@ -637,7 +641,7 @@ def what(case, obs):
 
 
 def describe(case, obs):
-    d = {k: case[k] for k in ('via', 'fmt', 'dest_exists', 'size', 'fault', 'overwrite', 'inputs') if k in case}
+    d = {k: case[k] for k in ('via', 'fmt', 'dest_exists', 'dest_empty', 'size', 'fault', 'overwrite', 'inputs') if k in case}
     d['writer'] = case.get('writer')
     if obs and 'runs' in obs:
         d['runs'] = len(obs['runs'])
@@ -743,6 +747,12 @@ def generate(tier, rng):
                     for at in ats:
                         cases.append(_sc('api', fmt, ex, 'small', {'kind': 'section-raises', 'section': s, 'at': at}, seed=seed))
                 cases.append(_sc('api', fmt, ex, 'small', {'kind': 'uncompressible'}, seed=seed))
+                if fmt == 'p8' and ex:
+                    for fault in ({'kind': 'no-reparse'}, {'kind': 'writer-raises', 'at': 1, 'pass': 1},
+                                  {'kind': 'section-raises', 'section': 'sfx', 'at': 1}):
+                        d = _sc('api', fmt, True, 'small', fault, seed=seed)
+                        d['dest_empty'] = True
+                        cases.append(d)
                 for which in (0, 1, 2):
                     cases.append(_sc('api', fmt, ex, 'small', {'kind': 'odd-code', 'which': which}, seed=seed))
                 if fmt == 'png':
